@@ -575,7 +575,7 @@ def oracle(case):
                 bad += " [keep_blank_values=%d, sent %r as %r]" % (keep, ps, qs)
         elif kind == "json":
             value = rand_json(rng, 3)
-            charset = rng.choice(["utf-8", "utf-8", None, "utf-16", "latin-1", "UTF-8"])
+            charset = rng.choice(["utf-8", "utf-8", None, "utf-16", "latin-1", "UTF-8", "iso-8859-2"])
             text = json.dumps(value, ensure_ascii=rng.random() < 0.5)
             try:
                 body = text.encode(charset or "utf-8")
@@ -584,7 +584,9 @@ def oracle(case):
             ctype = rng.choice(["application/json", "application/javascript", "application/merge-patch+json"])
             if charset:
                 # optional white space around the parameter separator (RFC 9110 5.6.6)
-                ctype += rng.choice(["; ", "; ", ";", " ; ", "\t;"]) + "charset=" + charset
+                # ... and parameter names are case-insensitive (RFC 9110 5.6.6); quoted values are allowed
+                ctype += rng.choice(["; ", "; ", ";", " ; ", "\t;"]) + rng.choice(["charset", "charset", "Charset", "CHARSET"]) \
+                    + "=" + (charset if rng.random() < 0.8 else '"%s"' % charset)
             cfg = {}
             if rng.random() < 0.3:
                 cfg.update(data_size=rng.choice([0, 3]), cached_size=rng.choice([0, 2, 65365]))
